@@ -84,6 +84,9 @@ func Gen(f Focus, thorough bool) *rapid.Generator[Script] {
 			}
 			s.Prod = append(s.Prod, PStep{Gap: g, Len: l})
 		}
+		if s.Kind == KindV2Unite {
+			s.SharedArray = rapid.Bool().Draw(t, "sharedarr")
+		}
 		s.CloseGap = pick(t, "cg", int64(0), 0, T/2, T, 3*T)
 		if mode == "single" {
 			s.CloseGap = pick(t, "cg1", 3*T, 5*T+1)
